@@ -109,6 +109,9 @@ func (t *clusterCache) Key() any {
 		h.WriteString(dr.Name)
 		h.Write(Slash)
 		h.WriteString(dr.Namespace)
+		// terminate each name/namespace pair, otherwise adjacent pairs are ambiguous
+		// (a/b + cd/e and a/bc + d/e would hash alike)
+		h.Write(Separator)
 	}
 	h.Write(Separator)
 
